@@ -84,9 +84,27 @@ func OracleC01(tr *Trace) Verdict {
 					Msg: fmt.Sprintf("%s deleted key %s at %v outside a StopWithContext{DeleteKey:true} call", who, op.Key, op.ApplyT)})
 				continue
 			}
+			// (a record written by the outside party that is byte-for-byte what the stopping term itself
+			// would have written - same id, same token - cannot be told from the own one and counts as own)
+			indistinguishable := false
 			if prev != nil && prev.Actor != in.ID {
-				v.Viols = append(v.Viols, Viol{At: op.ApplyT, Sig: "C01 delete-of-foreign-version by StopWithContext(DeleteKey)",
-					Msg: fmt.Sprintf("%s deleted key %s at %v during its graceful shutdown, but the live record was %s, owned by another party", who, op.Key, op.ApplyT, fmtVer(prev))})
+				for _, a := range tr.APIs {
+					if a.Obj == op.Obj && a.Call == "StopWithContext" && a.CallSeq < op.IssueSeq && (a.RetSeq < 0 || a.RetSeq > op.IssueSeq) {
+						if lv, ok := DecodeLib(prev.Value); ok && lv.ID == in.ID && lv.Token == a.TokenAtCall && a.TokenAtCall != "" {
+							indistinguishable = true
+						}
+					}
+				}
+			}
+			if prev != nil && prev.Actor != in.ID && !indistinguishable {
+				sig, how := "C01 delete-of-foreign-version by StopWithContext(DeleteKey)", ""
+				if p.PlainDelete {
+					// a store without leader.RevisionDeleter: the library looks (Get) and deletes in two steps
+					sig += " through a store without revision-checked delete"
+					how = " (the store of this plan offers no revision-checked delete: look and delete are two operations)"
+				}
+				v.Viols = append(v.Viols, Viol{At: op.ApplyT, Sig: sig,
+					Msg: fmt.Sprintf("%s deleted key %s at %v during its graceful shutdown, but the live record was %s, owned by another party%s", who, op.Key, op.ApplyT, fmtVer(prev), how)})
 			}
 			if prev != nil {
 				ownerChanges++
